@@ -333,7 +333,7 @@ def run_check(pid, tier, seed):
     per_family = {}
     if binp is not None and os.path.exists(DRIVER):
         for fam, weight in fam_cfg:
-            n = max(10, int(scale["n"] * weight))
+            n = max(10, int(scale["n"] * weight * cfg.get("scale", {}).get(tier, 1)))
             r = run_family(binp, fam, n, seed, [pid], shards=scale["shards"], mem=bool(cfg.get("mem")))
             per_family[fam] = {"executions": r["runs"], "violating": len({(b[0], b[1]) for b in r["bad"]}), "model_rejected": len(r["rejected"]), "livelocks": len(r["livelocks"])}
             for k in ("bad", "rejected", "livelocks", "errors"):
